@@ -514,10 +514,27 @@ pub fn run(ctx: &Ctx) {
 
     // (d) window x MSS
     let mss_pool: Vec<Option<u16>> = vec![None, Some(0), Some(99), Some(100), Some(536), Some(1024), Some(1360), Some(1380), Some(1400), Some(1440), Some(1452), Some(1460), Some(8960), Some(16344), Some(65495), Some(65535)];
+    // thorough: a dense MSS pool (around the <100 cut-off, every MSS 1200..=1500, multiples of 64 / 100 up to jumbo frames,
+    // the top of the u16 range, and 96 seeded values) - all 65536 windows against each
+    let mss_pool: Vec<Option<u16>> = if ctx.tier == crate::engine::Tier::Thorough {
+        let mut p: Vec<Option<u16>> = mss_pool;
+        p.extend((88u16..=112).map(Some));
+        p.extend((1200u16..=1500).map(Some));
+        p.extend((1u16..=140).map(|k| Some(k * 64)));
+        p.extend((1u16..=90).map(|k| Some(k * 100)));
+        p.extend((65400u16..=65535).step_by(5).map(Some));
+        let mut r = ctx.rng("window-x-mss:pool", 0);
+        p.extend((0..96).map(|_| Some(r.below(65536) as u16)));
+        p.sort();
+        p.dedup();
+        p
+    } else {
+        mss_pool
+    };
     let wstep: u64 = ctx.tier.pick(1, 1);
     let nwin = 65536 / wstep;
     let combos = mss_pool.len() as u64 * 2 * 2;
-    ctx.run_indexed("window-x-mss", "all 65536 windows x 16 MSS values (incl. none, <100, jumbo) x timestamp option on/off x {v4,v6}; non-trivial: window not rendered raw", true, nwin * combos, |i, st| {
+    ctx.run_indexed("window-x-mss", &format!("all 65536 windows x {} MSS values (quick: 16 incl. none, <100, jumbo; thorough: dense pool of ~700) x timestamp option on/off x {{v4,v6}}; non-trivial: window not rendered raw", mss_pool.len()), true, nwin * combos, |i, st| {
         let win = ((i % nwin) * wstep) as u16;
         let mut k = i / nwin;
         let mss = mss_pool[(k % mss_pool.len() as u64) as usize]; k /= mss_pool.len() as u64;
